@@ -72,6 +72,8 @@ type inputCoercionForListVisitor struct {
 
 func (i *inputCoercionForListVisitor) EnterDocument(operation, definition *ast.Document) {
 	i.operation, i.definition = operation, definition
+	// a walk stopped inside a variable definition skips LeaveVariableDefinition
+	i.query = i.query[:0]
 }
 
 func (i *inputCoercionForListVisitor) EnterOperationDefinition(ref int) {
